@@ -5,6 +5,7 @@ from __future__ import annotations
 import ast
 
 from ..facts import call_is, meth_is, strip
+from ..model import norm
 from ..terms import summarize
 
 LAN = "msmart.lan.LAN"
@@ -24,7 +25,49 @@ def send_writes_wrapped(ctx, rule: str):
                                 and strip(strip(t[2][0])[2][-1]) == ("param", send.params[1]) for n, t in writes)
     ctx.ob(rule, send.qual, w_ok, "LAN.send writes _Packet.encode(self._device_id, data) and nothing else", func=send.qual, file=send.module.rel, construct="self._protocol.write(packet)",
            fail="LAN.send does not write exactly the V2-wrapped frame for this device id")
+    # ... where self._device_id is the id the LAN object was constructed with, all of it
+    from ..ctor import init_attrs
+    lan_cls = prog.cls(LAN)
+    ini = prog.lookup_method(lan_cls, "__init__")
+    did = init_attrs(prog, lan_cls).get("_device_id")
+    want = ("param", "device_id") if ini is None or "device_id" in ini.params else None
+    id_ok = did is not None and (strip(did) == want or (want is None and strip(did)[0] == "param"))
+    ctx.ob(rule, LAN, id_ok, "the id wrapped into every packet is the constructor's device id, unmodified", func=LAN, file=lan_cls.module.rel, construct="self._device_id = device_id",
+           detail={"stored": None if did is None else str(did)[:100]},
+           fail="LAN.__init__ does not keep the device id as given (masked, truncated or converted): ids outside the kept range are wrapped as another device's id")
     return w_ok
+
+
+def drain_yields_decoded(ctx, rule: str):
+    """The non-blocking drain hands on every queued packet through the decoder and stops only on an empty queue: it does not swallow the
+    decoder's rejection (an altered packet picked up by the drain must fail the exchange like one picked up by the read)."""
+    from .c08 import attr_call
+    prog = ctx.prog
+    ra = ctx.fn(f"{LAN}._read_available")
+    ys = [n for n in ast.walk(ra.node) if isinstance(n, ast.Yield)]
+    reads = [n for n in ast.walk(ra.node) if isinstance(n, ast.Await) and isinstance(n.value, ast.Call) and attr_call(n.value, "_read")]
+    nonblocking = bool(reads) and all(any(k.arg == "timeout" and prog.fold_or_none(k.value, ra.module, ra.cls) == 0 and prog.fold_or_none(k.value, ra.module, ra.cls) is not False
+                                          for k in r.value.keywords) for r in reads)
+    # the yielded value is the awaited read (directly, or through one local)
+    def is_read_value(v):
+        if isinstance(v, ast.Await) and v in reads:
+            return True
+        if isinstance(v, ast.Name):
+            asg = [a for a in ast.walk(ra.node) if isinstance(a, ast.Assign) and any(isinstance(t, ast.Name) and t.id == v.id for t in a.targets)]
+            return len(asg) == 1 and asg[0].value in reads
+        return False
+    yields_read = len(ys) >= 1 and all(is_read_value(y.value) for y in ys)
+    swallowed = []
+    for t in ast.walk(ra.node):
+        if isinstance(t, ast.Try) and any(r is x for b in t.body for x in ast.walk(b) for r in reads):
+            for h in t.handlers:
+                names = ["BaseException"] if h.type is None else [norm(x).split(".")[-1] for x in (h.type.elts if isinstance(h.type, ast.Tuple) else [h.type])]
+                if any(n_ not in ("QueueEmpty",) for n_ in names) and not any(isinstance(x, ast.Raise) for x in ast.walk(h)):
+                    swallowed.append((h, names))
+    ctx.ob(rule, ra.qual, nonblocking and yields_read and not swallowed, "_read_available yields every queued frame through _read without blocking and stops only on an empty queue",
+           func=ra.qual, file=ra.module.rel, construct="_read_available", node=swallowed[0][0] if swallowed else None,
+           fail=("_read_available swallows " + ", ".join(swallowed[0][1]) + ": an altered packet picked up by the drain is consumed silently" if swallowed else
+                 "_read_available no longer yields each queued decoded frame"))
 
 
 def read_returns_decoded(ctx, rule: str):
